@@ -2,7 +2,7 @@
 # like verify_seed.sh but for re-seeds made on the fixed tree (worktrees under /tmp/seed2); replaces /verif/seeded/<id>, keeping the stale one as <id>_prefix
 set -u
 id=$1
-wt=/tmp/seed2/$id; out=$wt/_out
+wt=${SEEDROOT:-/tmp/seed2}/$id; out=$wt/_out
 export GOFLAGS=-mod=readonly GOPROXY=off GOSUMDB=off GOTOOLCHAIN=local
 cd $wt || exit 2
 git checkout -q -- . ; git clean -fdq -e _out
@@ -32,7 +32,7 @@ cp $out/zz_seed_demo_test.go $wt/$demo_path
 if timeout 300 go test -vet=off -count=1 -run 'TestSeedDemo$' $pkg >>$log 2>&1; then fail "demo passes with patch"; fi
 rm -f $wt/$demo_path $out/suite.json
 git checkout -q -- .
-if [ -d /verif/seeded/$id ]; then rm -rf /verif/seeded/${id}_superseded; mv /verif/seeded/$id /verif/seeded/${id}_superseded; fi
+if [ -d /verif/seeded/$id ]; then n=1; while [ -e /verif/seeded/${id}_superseded$n ]; do n=$((n+1)); done; mv /verif/seeded/$id /verif/seeded/${id}_superseded$n; fi
 mkdir -p /verif/seeded/$id
 cp $out/patch.diff $out/zz_seed_demo_test.go $out/demo_path.txt /verif/seeded/$id/
 python3 - $out/meta.json /verif/seeded/$id/meta.json <<'PY'
